@@ -1,7 +1,241 @@
-import DmlcModel.Param.Model
+/-
+C17 — Parameter Init/Update follow the declared schema for every argument list.
+Property theorems only; the lemmas live in DmlcModel/Param/{Lemmas,EntryMap,RunSpec,Spec,Dict}.lean.
+
+All theorems hold for every `FloatOps` (the float/double conversion pair is abstract), every schema with
+pairwise distinct keys (`(allKeys S).Nodup`: `AddEntry`/`AddAlias` refuse duplicates), every argument
+list, every option value and both collecting modes, starting from any struct content.
+-/
+import DmlcModel.Param.RunSpec
+import DmlcModel.Param.Spec
+import DmlcModel.Param.Dict
+
 namespace DmlcModel.Props.C17
 open DmlcModel DmlcModel.Param
 
-theorem C17_stub : (1 : Nat) = 1 := rfl
+/-- **Init, success.**  If `RunInit` (= `Init`, `InitAllowUnknown`) does not throw, every declared field
+holds the parsed value of the LAST argument whose key is its name or one of its aliases, or — when no
+argument mentions it — its declared default; the returned unknown list is, in collecting mode, exactly
+the arguments with unregistered keys in their original order (empty otherwise). -/
+theorem C17_init_ok (ops : FloatOps) (S : Schema) (hS : (allKeys S).Nodup) (option : Nat) (collect : Bool)
+    (st : Struct) (kw : List KV) (h : (runInit ops S option collect st kw).err = none) :
+    (∀ i f, S[i]? = some f →
+      match lastOccK (fieldKeys f) kw with
+      | some t => parse ops f t = .ok ((runInit ops S option collect st kw).st i)
+      | none => f.dflt = some ((runInit ops S option collect st kw).st i)) ∧
+    (runInit ops S option collect st kw).unk =
+      (if collect then kw.filter (fun kv => (find S kv.1).isNone) else []) :=
+  runInit_ok_spec ops S hS option collect st kw h
+
+/-- **Init, failure.**  `RunInit` throws `e` iff either some argument is the first offending one with
+error `e` (`firstErr`, unfolded by `C17_first_offending` and `C17_arg_ok_iff`), or every argument is
+fine and a field without default is mentioned by no argument (`e` = "Required parameter … missing"). -/
+theorem C17_init_error_iff (ops : FloatOps) (S : Schema) (hS : (allKeys S).Nodup) (option : Nat) (collect : Bool)
+    (st : Struct) (kw : List KV) (e : ErrKind) :
+    (runInit ops S option collect st kw).err = some e ↔
+      firstErr ops S option collect kw = some e ∨
+      (firstErr ops S option collect kw = none ∧ e = .required ∧
+        ∃ (i : Nat) (f : Field), S[i]? = some f ∧ f.dflt = none ∧ lastOccK (fieldKeys f) kw = none) :=
+  runInit_error_iff ops S hS option collect st kw e
+
+/-- the first error in argument order is the error of the first argument that is not fine -/
+theorem C17_first_offending (ops : FloatOps) (S : Schema) (option : Nat) (collect : Bool) (kw : List KV) (e : ErrKind) :
+    firstErr ops S option collect kw = some e ↔
+      ∃ pre a post, kw = pre ++ a :: post ∧ (∀ b ∈ pre, argErr ops S option collect b = none) ∧
+        argErr ops S option collect a = some e :=
+  firstErr_eq_some_iff ops S option collect e kw
+
+/-- an argument is fine iff its key is registered and its value is entirely a valid literal of the field's
+type (`Spec.literal`) within the declared range, or its key is unregistered and tolerated by the policy
+(collecting mode, `kAllowUnknown`, or a hidden key under `kAllowHidden`). -/
+theorem C17_arg_ok_iff (ops : FloatOps) (S : Schema) (hE : ∀ f ∈ S, EnumsInRange f) (option : Nat) (collect : Bool)
+    (k v : Bytes) :
+    argErr ops S option collect (k, v) = none ↔
+      match find S k with
+      | some (_, f) => ∃ val, literal ops f v = some val ∧ check f val = none
+      | none => collect = true ∨ option = Gen.Param.kAllowUnknown ∨ hiddenSkip option k = true := by
+  unfold argErr
+  cases hf : find S k with
+  | some p =>
+    obtain ⟨i, f⟩ := p
+    simp only
+    have hfS : f ∈ S := List.mem_of_getElem? (find_sound S k i f hf).1
+    have hlit := set_ok_iff_literal ops f (hE f hfS) (zeroVal f.ty) v
+    unfold applyArg
+    cases hl : literal ops f v with
+    | none =>
+      have := hlit.2 hl
+      rcases hs : setVal ops f (zeroVal f.ty) v with ⟨nv, e⟩
+      rw [hs] at this
+      cases e with
+      | none => exact absurd rfl this
+      | some e => simp
+    | some val =>
+      rw [hlit.1 val hl]
+      simp
+  | none =>
+    simp only [Gen.Param.collects, Gen.Param.polMayReject]
+    cases collect <;> by_cases ho : option = Gen.Param.kAllowUnknown <;>
+      by_cases hh : hiddenSkip option k = true <;> simp [ho, hh]
+
+/-- kinds of failure of a registered key: not a literal (any error but "range") or literal out of range -/
+theorem C17_arg_error_kind (ops : FloatOps) (f : Field) (hE : EnumsInRange f) (old : Val) (v : Bytes) (e : ErrKind)
+    (h : (applyArg ops f old v).2 = some e) :
+    (literal ops f v = none) ∨ (∃ val, literal ops f v = some val ∧ check f val = some .range ∧ e = .range) := by
+  have hlit := set_ok_iff_literal ops f hE old v
+  cases hl : literal ops f v with
+  | none => exact Or.inl rfl
+  | some val =>
+    right
+    unfold applyArg at h
+    rw [hlit.1 val hl] at h
+    simp only at h
+    refine ⟨val, rfl, ?_, ?_⟩
+    · unfold check at h ⊢
+      by_cases hc : hasCheck f.ty = true
+      · simp only [hc, Bool.not_true, Bool.false_eq_true, if_false] at h ⊢
+        repeat' split at h
+        all_goals first | (cases h) | skip
+        all_goals simp_all
+      · simp [hc] at h
+    · unfold check at h
+      by_cases hc : hasCheck f.ty = true
+      · simp only [hc, Bool.not_true, Bool.false_eq_true, if_false] at h
+        repeat' split at h
+        all_goals first | (cases h; rfl) | (cases h)
+      · simp [hc] at h
+
+/-- `Check`: a value passes iff it is not below the lower bound (if declared) and not above the upper
+bound (if declared); comparisons are those of the field's C++ type (any comparison with NaN is false). -/
+theorem C17_check_iff (f : Field) (v : Val) (hc : hasCheck f.ty = true) :
+    check f v = none ↔ (∀ lo, f.lo = some lo → vLt f.ty v lo = false) ∧ (∀ hi, f.hi = some hi → vLt f.ty hi v = false) := by
+  unfold check
+  simp only [hc, Bool.not_true, Bool.false_eq_true, if_false, Gen.Param.chkBoth, Gen.Param.chkBothFail,
+    Gen.Param.chkLowerFail, Gen.Param.chkUpperFail]
+  cases hlo : f.lo <;> cases hhi : f.hi <;> simp <;>
+    (try (cases h1 : vLt f.ty v _ <;> simp)) <;> (try (cases h2 : vLt f.ty _ v <;> simp))
+
+/-- **Hidden keys / policies.**  The `continue` branch for hidden keys fires iff the option is
+`kAllowHidden`, the key is longer than 4 bytes, starts with `__` (first occurrence at 0) and its last
+occurrence of `__` is at `length - 2`; so `____` (length 4) is NOT hidden.  (`std::string` lengths are
+below 2^64.) -/
+theorem C17_hidden_policy (option : Nat) (k : Bytes) (hlen : k.length < 2 ^ 64) :
+    hiddenSkip option k = true ↔
+      option = Gen.Param.kAllowHidden ∧ k.length > 4 ∧ findSub [95, 95] k = 0 ∧ rfindSub [95, 95] k = k.length - 2 := by
+  unfold hiddenSkip Gen.Param.hiddenSkip Gen.Param.hiddenPattern
+  simp only [Bool.and_eq_true, beq_iff_eq, decide_eq_true_eq]
+  constructor
+  · rintro ⟨⟨⟨h1, h2⟩, h3⟩, h4⟩
+    refine ⟨h1, h2, h3, ?_⟩
+    rw [h4]; unfold sub64; omega
+  · rintro ⟨h1, h2, h3, h4⟩
+    refine ⟨⟨⟨h1, h2⟩, h3⟩, ?_⟩
+    rw [h4]; unfold sub64; omega
+
+/-- an unregistered key, by policy: collected when collecting; otherwise ignored under `kAllowUnknown`,
+ignored under `kAllowHidden` iff hidden, and always an error under `kAllMatch`. -/
+theorem C17_unknown_key_policy (ops : FloatOps) (S : Schema) (option : Nat) (collect : Bool) (k v : Bytes)
+    (hk : find S k = none) :
+    (collect = true → argErr ops S option collect (k, v) = none) ∧
+    (collect = false → option = Gen.Param.kAllowUnknown → argErr ops S option collect (k, v) = none) ∧
+    (collect = false → option = Gen.Param.kAllMatch → argErr ops S option collect (k, v) = some .unknown) ∧
+    (collect = false → option = Gen.Param.kAllowHidden →
+      argErr ops S option collect (k, v) = if hiddenSkip option k then none else some .unknown) := by
+  unfold argErr
+  simp only [hk, Gen.Param.collects, Gen.Param.polMayReject]
+  refine ⟨fun h => by simp [h], fun h ho => by simp [h, ho], fun h ho => ?_, fun h ho => ?_⟩
+  · subst ho
+    have this : hiddenSkip 1 k = false := by
+      unfold hiddenSkip Gen.Param.hiddenSkip
+      simp [Gen.Param.kAllowHidden]
+    simp [h, this, Gen.Param.kAllMatch, Gen.Param.kAllowUnknown]
+  · subst ho
+    simp [h, Gen.Param.kAllowHidden, Gen.Param.kAllowUnknown]
+
+/-- **Update changes only the mentioned fields** — whether or not it throws. -/
+theorem C17_update_frame (ops : FloatOps) (S : Schema) (hS : (allKeys S).Nodup) (option : Nat) (collect : Bool)
+    (st : Struct) (kw : List KV) (i : Nat) (f : Field) (hi : S[i]? = some f)
+    (hno : ∀ kv ∈ kw, kv.1 ∉ fieldKeys f) :
+    (runUpdate ops S option collect st [] [] kw).st i = st i := by
+  apply runUpdate_frame
+  rw [lastOcc_eq_lastOccK S hS i f hi kw]
+  exact (lastOccK_none_iff (fieldKeys f) kw).mpr hno
+
+/-- the mentioned fields of a successful Update hold the parse of their last occurrence -/
+theorem C17_update_ok (ops : FloatOps) (S : Schema) (hS : (allKeys S).Nodup) (option : Nat) (collect : Bool)
+    (st : Struct) (kw : List KV) (h : (runUpdate ops S option collect st [] [] kw).err = none)
+    (i : Nat) (f : Field) (hi : S[i]? = some f) (t : Bytes) (ht : lastOccK (fieldKeys f) kw = some t) :
+    parse ops f t = .ok ((runUpdate ops S option collect st [] [] kw).st i) := by
+  obtain ⟨h1, _, _⟩ := runUpdate_ok ops S option collect kw st [] [] h
+  rw [← lastOcc_eq_lastOccK S hS i f hi kw] at ht
+  exact (h1 i).2 t ht f hi
+
+/-- **"not entirely a valid literal"**: `Set` succeeds exactly on `Spec.literal` and stores its value -/
+theorem C17_set_ok_iff_literal (ops : FloatOps) (f : Field) (hf : EnumsInRange f) (old : Val) (text : Bytes) :
+    (∀ v, literal ops f text = some v → setVal ops f old text = (v, none)) ∧
+    (literal ops f text = none → (setVal ops f old text).2 ≠ none) :=
+  set_ok_iff_literal ops f hf old text
+
+/-- **Dictionary form, struct level.**  `R f a b` = "b is an acceptable re-reading of a for field f"
+(equality for the exact kinds, the C14 tolerance for float/double).  If the string form of every field
+parses back to a related value (`C17_field_roundtrip` proves this with `R = Eq` for every kind but
+float/double), then `Init` from `__DICT__()` — under any option, collecting or not, from any start
+struct — does not throw, reports no unknown key and yields a related struct. -/
+theorem C17_dict_roundtrip (ops : FloatOps) (S : Schema) (hS : (allKeys S).Nodup) (R : Field → Val → Val → Prop)
+    (st : Struct) (kvs : List KV) (hd : dict ops S st = .ok kvs)
+    (H : ∀ i f, S[i]? = some f → ∀ s, getString ops f (st i) = .ok s → ∃ v', parse ops f s = .ok v' ∧ R f (st i) v')
+    (option : Nat) (collect : Bool) (st0 : Struct) :
+    (runInit ops S option collect st0 kvs).err = none ∧
+    (runInit ops S option collect st0 kvs).unk = [] ∧
+    ∀ i f, S[i]? = some f → R f (st i) ((runInit ops S option collect st0 kvs).st i) :=
+  dict_reinit ops S hS R st kvs hd H option collect st0
+
+/-- **Dictionary form, field level** (int, unsigned, int64, bool, string, enum, optional<int>, optional enum,
+optional<bool>): the printed form of a well-typed in-range value is a literal of the type denoting exactly
+that value. -/
+theorem C17_field_roundtrip (ops : FloatOps) (f : Field) (hE : EnumsInRange f) (hN : EnumNamesOk f) (v : Val)
+    (hnf : f.ty ≠ .float ∧ f.ty ≠ .double) (hwt : WellTyped f v) (hck : check f v = none) (s : Bytes)
+    (hs : getString ops f v = .ok s) : parse ops f s = .ok v :=
+  field_roundtrip ops f hE hN v hnf hwt hck s hs
+
+/-- JSON strings: `ReadString` undoes `WriteString` for every byte string -/
+theorem C17_json_string_roundtrip (s rest : Bytes) :
+    jsonReadString (jsonString s ++ rest) = some (s, rest) := by
+  unfold jsonReadString jsonString
+  have : skipWs ((34 : Byte) :: (jsonEscape s ++ [34]) ++ rest) = (34 : Byte) :: (jsonEscape s ++ (34 : Byte) :: rest) := by
+    simp [skipWs, cIsSpace]
+  rw [this]
+  simp [jsonReadStrBody_escape]
+
+/-- **JSON form, full statement** (not proved in full: the object-level reader loop over the writer's
+output — separators, line breaks, key order — is covered by correspondence only; proved parts:
+`C17_json_string_roundtrip` for every string value and `C17_json_roundtrip_partial` below). -/
+def C17_json_roundtrip_statement : Prop :=
+  ∀ (ops : FloatOps) (S : Schema), (allKeys S).Nodup →
+    (∀ k ∈ allKeys S, ∀ c ∈ k, c.toNat ≠ 34 ∧ c.toNat ≠ 92 ∧ c.toNat ≠ 10 ∧ c.toNat ≠ 13) →
+    ∀ (R : Field → Val → Val → Prop) (st : Struct) (js : Bytes), save ops S st = .ok js →
+    (∀ i f, S[i]? = some f → ∀ s, getString ops f (st i) = .ok s → ∃ v', parse ops f s = .ok v' ∧ R f (st i) v') →
+    ∀ st0, (load ops S st0 js).err = none ∧ ∀ i f, S[i]? = some f → R f (st i) ((load ops S st0 js).st i)
+
+/-- **JSON form, partial**: as the full statement, with the extra hypothesis that the map reader returns
+the dictionary the map writer was given. -/
+theorem C17_json_roundtrip_partial (ops : FloatOps) (S : Schema) (hS : (allKeys S).Nodup)
+    (R : Field → Val → Val → Prop) (st : Struct) (kvs : List KV) (js : Bytes)
+    (hd : dict ops S st = .ok kvs) (hsv : save ops S st = .ok js)
+    (hread : jsonReadMap (jsonWriteMap kvs) = some kvs)
+    (H : ∀ i f, S[i]? = some f → ∀ s, getString ops f (st i) = .ok s → ∃ v', parse ops f s = .ok v' ∧ R f (st i) v')
+    (st0 : Struct) :
+    (load ops S st0 js).err = none ∧ ∀ i f, S[i]? = some f → R f (st i) ((load ops S st0 js).st i) := by
+  have hjs : js = jsonWriteMap kvs := by
+    unfold save at hsv
+    rw [hd] at hsv
+    simp only [Except.ok.injEq] at hsv
+    exact hsv.symm
+  subst hjs
+  unfold load
+  rw [hread]
+  simp only [init]
+  obtain ⟨h1, _, h3⟩ := dict_reinit ops S hS R st kvs hd H Gen.Param.kAllowHidden false st0
+  exact ⟨h1, h3⟩
 
 end DmlcModel.Props.C17
